@@ -207,6 +207,11 @@ func monDepthRewards(rep *report.Report, h History, s Step, p *env.RewardPeriod)
 			if new(big.Rat).Sub(rat(got), exact).Cmp(ptol) > 0 {
 				rep.Violate("C18/rewards/pool-split", fmt.Sprintf("pool %d received %s, weighted share %s", pl.Asset, got, exact.FloatString(3)), replayOf(h, s.StepNo))
 			}
+			// ... and not less (the shares add up to at most the block distribution, so the cap never bites
+			// by more than the rounding of the pools before it)
+			if new(big.Rat).Sub(exact, rat(got)).Cmp(ptol) > 0 {
+				rep.Violate("C18/rewards/pool-split-short", fmt.Sprintf("pool %d received %s, weighted share %s", pl.Asset, got, exact.FloatString(3)), replayOf(h, s.StepNo))
+			}
 			continue
 		}
 		for _, l := range s.Pre.LPs {
@@ -229,7 +234,7 @@ func monDepthRewards(rep *report.Report, h History, s Step, p *env.RewardPeriod)
 			}
 			continue
 		}
-		if new(big.Rat).Sub(rat(d), exp).Cmp(tol[id]) > 0 {
+		if absRat(new(big.Rat).Sub(rat(d), exp)).Cmp(tol[id]) > 0 {
 			rep.Violate("C18/rewards/share", fmt.Sprintf("provider %d received %s, pro-rata share %s (tolerance %s)", id, d, exp.FloatString(3), tol[id].FloatString(3)), replayOf(h, s.StepNo))
 		}
 	}
